@@ -118,6 +118,18 @@ impl PartialEq for P {
 
 impl Eq for P {}
 
+impl std::fmt::Debug for P {
+    fn fmt(&self, f: &mut std::fmt::Formatter<'_>) -> std::fmt::Result {
+        log_un("fmt", "own", self, "0");
+        write!(f, "p{}", self.v)
+    }
+}
+
+pub fn m_fmt(a: &P, f: &mut std::fmt::Formatter<'_>) -> std::fmt::Result {
+    log_un("fmt", "method", a, "0");
+    write!(f, "m{}", a.v)
+}
+
 fn own_pcmp(x: i8, y: i8) -> Option<Ordering> {
     if x == NAN || y == NAN {
         None
@@ -151,6 +163,11 @@ impl Hash for P {
     }
 }
 
+// P is Copy so that types educing Copy can contain it; the hand-written Clone still logs, which is
+// how a bitwise copy (generation unchanged, no call) is told apart from a field-wise clone.
+impl Copy for P {}
+
+#[allow(clippy::expl_impl_clone_on_copy)]
 impl Clone for P {
     fn clone(&self) -> P {
         log_un("clone", "own", self, "0");
@@ -473,6 +490,43 @@ pub fn run_hashes<T: Case + Hash + PartialEq, W: Write>(out: &mut Out<W>, dom: &
     ));
 }
 
+/// `x.clone()` for every value, `a.clone_from(&b)` for every ordered pair; results as fingerprints
+pub fn run_clone<T: Case + Clone, W: Write>(out: &mut Out<W>, dom: &[i8]) {
+    let vals = all_values::<T>(dom);
+    for a in vals.iter() {
+        let x = T::make(0, a.v, &a.f);
+        match guarded(|| x.clone()) {
+            Ok(r) => {
+                let calls = calls_json();
+                out.rec(&format!(
+                    "\"ev\":\"op\",\"t\":{},\"op\":\"clone\",\"a\":{},\"calls\":{},\"res\":{}",
+                    T::ID, a.json(), calls, r.finger()
+                ));
+            },
+            Err(_) => out.rec(&format!("\"ev\":\"op\",\"t\":{},\"op\":\"panic\",\"in\":\"clone\",\"a\":{}", T::ID, a.json())),
+        }
+    }
+    for a in vals.iter() {
+        for b in vals.iter() {
+            let mut x = T::make(0, a.v, &a.f);
+            let y = T::make(1, b.v, &b.f);
+            match guarded(|| x.clone_from(&y)) {
+                Ok(()) => {
+                    let calls = calls_json();
+                    out.rec(&format!(
+                        "\"ev\":\"op\",\"t\":{},\"op\":\"clone_from\",\"a\":{},\"b\":{},\"calls\":{},\"res\":{}",
+                        T::ID, a.json(), b.json(), calls, x.finger()
+                    ));
+                },
+                Err(_) => out.rec(&format!(
+                    "\"ev\":\"op\",\"t\":{},\"op\":\"panic\",\"in\":\"clone_from\",\"a\":{},\"b\":{}",
+                    T::ID, a.json(), b.json()
+                )),
+            }
+        }
+    }
+}
+
 // ---------------------------------------------------------------- layout matrix (C04)
 
 /// A value with neighbour bytes: the value sits at offset 0 of a `#[repr(C)]` pair whose second member is
@@ -598,11 +652,66 @@ pub fn silence_panics() {
     std::panic::set_hook(Box::new(|_| {}));
 }
 
-/// formatting helper used by Debug runners
+/// formatting helper used by Debug runners; newlines are written as '|'
 pub fn fmt_both<T: std::fmt::Debug>(x: &T) -> (String, String) {
     let mut s = String::new();
     let mut p = String::new();
     write!(s, "{:?}", x).unwrap();
     write!(p, "{:#?}", x).unwrap();
-    (s, p)
+    (s.replace('\n', "|"), p.replace('\n', "|"))
+}
+
+fn jstr(s: &str) -> String {
+    let mut o = String::from("\"");
+    for ch in s.chars() {
+        match ch {
+            '"' => o.push_str("\\\""),
+            '\\' => o.push_str("\\\\"),
+            c if (c as u32) < 0x20 => o.push_str(&format!("\\u{:04x}", c as u32)),
+            c => o.push(c),
+        }
+    }
+    o.push('"');
+    o
+}
+
+/// `{:?}` and `{:#?}` of every value; `names` = type name followed by nothing, `fields[v-1]` = field
+/// identifiers of variant v ("" for tuple fields); `twin` formats the same value of a twin type that
+/// uses #[derive(Debug)] (only supplied for configurations without educe parameters).
+pub fn run_fmt<T: Case + std::fmt::Debug, W: Write>(
+    out: &mut Out<W>,
+    dom: &[i8],
+    type_name: &str,
+    fields: &[&[&str]],
+    twin: Option<&dyn Fn(usize, &[i8]) -> (String, String)>,
+) {
+    let vals = all_values::<T>(dom);
+    for a in vals.iter() {
+        let x = T::make(0, a.v, &a.f);
+        log_take();
+        let r1 = catch_unwind(AssertUnwindSafe(|| {
+            let mut s = String::new();
+            write!(s, "{:?}", x).map(|_| s)
+        }));
+        let calls = calls_json();
+        let r2 = catch_unwind(AssertUnwindSafe(|| {
+            let mut s = String::new();
+            write!(s, "{:#?}", x).map(|_| s)
+        }));
+        let pcalls = calls_json();
+        let (dout, dpretty) = match twin {
+            Some(f) => f(a.v, &a.f),
+            None => (String::new(), String::new()),
+        };
+        log_take();
+        let fnames: Vec<String> = fields[a.v - 1].iter().map(|s| jstr(s)).collect();
+        match (r1, r2) {
+            (Ok(Ok(o)), Ok(Ok(p))) => out.rec(&format!(
+                "\"ev\":\"op\",\"t\":{},\"op\":\"fmt\",\"a\":{},\"nm\":{{\"type\":{},\"fields\":[{}]}},\"out\":{},\"pretty\":{},\"calls\":{},\"pcalls\":{},\"dout\":{},\"dpretty\":{}",
+                T::ID, a.json(), jstr(type_name), fnames.join(","), jstr(&o.replace('\n', "|")), jstr(&p.replace('\n', "|")),
+                calls, pcalls, jstr(&dout), jstr(&dpretty)
+            )),
+            _ => out.rec(&format!("\"ev\":\"op\",\"t\":{},\"op\":\"panic\",\"in\":\"fmt\",\"a\":{}", T::ID, a.json())),
+        }
+    }
 }
